@@ -113,6 +113,25 @@ def build_base(nf, base):
     mt.references.append(ref)
     objs["mtag"] = mt
     objs["_n"] = 0
+    # a second block that re-uses every name with other (consistent) descriptors and units: nothing may ever be
+    # reported for its objects, whatever is injected into the first block
+    blk2 = nf.create_block("zblock", "t")
+    for a, rank in (("a1", 2), ("a2", 1)):
+        da = blk2.create_data_array(a, "t", data=np.zeros((3,) * rank))
+        for i in range(rank):
+            da.append_sampled_dimension(0.5, unit="mV") if i == 0 else da.append_set_dimension(labels=["a", "b", "c"])
+    ref2 = blk2.data_arrays[base["ref"]]
+    rank2 = len(ref2.shape)
+    units2 = ["mV" if i == 0 else "" for i in range(rank2)]
+    tag2 = blk2.create_tag("tag", "t", [1.0] * rank2)
+    tag2.extent = [1.0] * rank2
+    tag2.units = units2
+    tag2.references.append(ref2)
+    pos2 = _plain(blk2.create_data_array("positions", "t", data=np.ones((2, rank2))))
+    mt2 = blk2.create_multi_tag("mtag", "t", pos2)
+    mt2.extents = _plain(blk2.create_data_array("extents", "t", data=np.ones((2, rank2))))
+    mt2.units = units2
+    mt2.references.append(ref2)
     return objs
 
 
@@ -184,6 +203,11 @@ def replay_one(vec):
             raise core.MachineryError("cannot build the abstract file %r: %r" % (inj, exc))
         ids = {o.id: e for e, o in objs.items() if e != "_n"}
         aux = {a.id: a._h5group.name for a in nf.blocks[0].data_arrays if a._h5group.name.startswith(("positions", "extents"))}
+        b2 = nf.blocks["zblock"]
+        decoy = {b2.id: "zblock"}
+        for cont in (b2.data_arrays, b2.tags, b2.multi_tags):
+            for e in cont:
+                decoy[e.id] = "zblock/" + e.name
         try:
             out = nf.validate()
         except Exception as exc:  # noqa
@@ -195,9 +219,10 @@ def replay_one(vec):
             oid = getattr(obj, "id", None)
             if oid in ids:
                 got[ids[oid]].update(classify(m) for m in msgs)
-            elif oid in aux or obj is nf:
+            elif oid in aux or obj is nf or oid in decoy:
                 if msgs:
-                    finding("error_on_unrelated_object", {"object": aux.get(oid, "file"), "messages": msgs[:3]})
+                    finding("error_on_unrelated_object/%s" % ("second_block" if oid in decoy else "auxiliary"),
+                            {"object": aux.get(oid) or decoy.get(oid) or "file", "messages": msgs[:3]})
             else:
                 finding("error_on_unknown_object", {"object": repr(obj)[:80], "messages": msgs[:3]})
         for e in objs:
@@ -234,7 +259,8 @@ def run(tier, seed, verdict):
              "of injections from the catalogue (missing / surplus descriptor, tick / label count, missing / unsorted ticks, "
              "compound or non-SI dimension unit, missing / negative interval, missing position, position / extent / unit "
              "length mismatches, unconvertible and non-SI tag units, missing type / name) at every eligible object; the "
-             "real file is built, validate() run, and the error classes compared per object, for all objects",
+             "real file is built, validate() run, and the error classes compared per object, for all objects; a second block "
+             "re-using every name with other consistent descriptors must never get an error",
         assumptions=["message classes are compared (by matching the validator's own message templates), not wording",
                      "missing id / missing creation date cannot be injected without breaking entity instantiation "
                      "(Entity.__init__ rejects a missing id; the created_at getter cannot parse None): left open",
